@@ -33,7 +33,8 @@ def configs(tier):
     from jumanji.environments.packing.bin_pack.reward import DenseReward, SparseReward
 
     g = lambda i, e, **kw: G(max_num_items=i, max_num_ems=e, split_num_same_items=1, **kw)
-    out = {"i2e3o3": lambda: BinPack(g(2, 3), obs_num_ems=3, reward_fn=DenseReward()),
+    out = {"i2e3o3": lambda: BinPack(g(2, 3, container_dims=(800, 1000, 1200)), obs_num_ems=3, reward_fn=DenseReward()),
+           # (normalised observation of a container with x < y < z: a coordinate divided by the wrong container length leaves [0, 1])
            "i2e3o2sparse": lambda: BinPack(g(2, 3), obs_num_ems=2, reward_fn=SparseReward()),
            # (a NON-default container: a dimension taken from the 20-ft default instead of the configured container is visible here)
            "i2e3o3raw": lambda: BinPack(g(2, 3, container_dims=(1200, 1000, 800)), obs_num_ems=3, reward_fn=DenseReward(), normalize_dimensions=False)}
